@@ -221,10 +221,12 @@ def run(ctx):
                 out["javac"] = ("ok", dict(x.split() for x in o.strip().split("\n") if x))
         return tag, out
 
+    # since the repair of the C/C++/Java constant emitters (constants written by value) every
+    # accepted integer constant must compile and evaluate correctly in all four languages
     jobs = [("good", groups["good"], ("c", "cpp", "rust", "java")),
-            ("cmin", groups["c_signed_min"], ("rust",)),
-            ("javabad", groups["java_only_bad"], ("c", "cpp", "rust")),
-            ("lz", groups["leading_zero"][:6], ("rust",))]
+            ("cmin", groups["c_signed_min"], ("c", "cpp", "rust", "java")),
+            ("javabad", groups["java_only_bad"], ("c", "cpp", "rust", "java")),
+            ("lz", groups["leading_zero"][:12], ("c", "cpp", "rust", "java"))]
     # one witness per known class, alone
     wit = {"lzc": ([("uint16", "00017", 17)], ("c", "cpp", "java")),
            "jn": ([("uint8", "200", 200)], ("java",)),
@@ -270,6 +272,13 @@ def run(ctx):
                         if not (got == want or (want != 0 and abs(got - want) <= abs(want) * 1e-6)):
                             res["failures"].append({"property": prop, "type": t, "literal": l, "compiler": comp,
                                                     "what": "constant %s = %s evaluates to %s with %s" % (t, l, vals[key], comp)})
+                        continue
+                    if comp == "javac":
+                        # Java holds the value in a signed (or, for 16 bits, char) carrier of the same width
+                        bits = {"uint8": 8, "int8": 8, "uint16": 16, "int16": 16, "uint32": 32, "int32": 32, "uint64": 64, "int64": 64}[t]
+                        if (int(vals[key]) - v) % (1 << bits) != 0:
+                            res["failures"].append({"property": prop, "type": t, "literal": l, "compiler": comp,
+                                                    "what": "constant %s = %s is %s in Java, not the carrier of %s" % (t, l, vals[key], v)})
                         continue
                     if int(vals[key]) != v:
                         res["failures"].append({"property": prop, "type": t, "literal": l, "compiler": comp,
